@@ -33,6 +33,7 @@ type c11Script struct {
 	Sides    map[string]string `json:"sides"` // argument -> tail | head | interior
 	Align    int               `json:"align,omitempty"`
 	DstLen   int               `json:"dst_len,omitempty"`
+	Tight    bool              `json:"tight,omitempty"` // cap(dst) == len(dst): the library has to move the prefix into a buffer of its own
 	ShortLen int               `json:"short_len,omitempty"` // misuse: length of the too-short argument
 	SpareCap int               `json:"spare_cap,omitempty"` // misuse: capacity beyond len of the short argument
 	Cold     bool              `json:"cold,omitempty"`      // everything (object construction and the call) runs on an OS thread that never ran library code (seam S7)
@@ -74,24 +75,47 @@ func c11BigKs(tier string) int {
 
 func c11BigN(tier string) int { return c11BigKs(tier) * len(c11BigDelta) * 2 * 2 }
 
+// sweep of dst prefixes without room behind them (cap == len, so Seal/Open re-allocate and
+// copy the prefix): every length 1..200, then 2^k + delta for k = 8..16 (thorough: ..24)
+var c11PrefDelta = []int{-1, 0, 1, 15, 16, 17, 33, 37, 63, 64}
+
+func c11PrefLens(tier string) []int {
+	var l []int
+	for n := 1; n <= 200; n++ {
+		l = append(l, n)
+	}
+	top := 16
+	if tier == "thorough" {
+		top = 24
+	}
+	for k := 8; k <= top; k++ {
+		for _, d := range c11PrefDelta {
+			l = append(l, 1<<uint(k)+d)
+		}
+	}
+	return l
+}
+
+func c11PrefN(tier string) int { return len(c11PrefLens(tier)) * 2 * 2 }
+
 func (c11) Plan(tier string) core.Plan {
 	if tier == "thorough" {
-		return core.Plan{Systematic: c11SysN() + c11BigN(tier) + len(giantVariants), Seeded: 2000000}
+		return core.Plan{Systematic: c11SysN() + c11BigN(tier) + c11PrefN(tier) + len(giantVariants), Seeded: 2000000}
 	}
-	return core.Plan{Systematic: c11SysN() + c11BigN(tier), Seeded: 150000}
+	return core.Plan{Systematic: c11SysN() + c11BigN(tier) + c11PrefN(tier), Seeded: 150000}
 }
 
 func (c11) Meta() core.Meta {
 	return core.Meta{
 		Level: "exploration",
-		Rule: "systematic (enumerated completely every run): Seal and Open at every plaintext length 0..1100 with all arguments (nonce, aad, plaintext/ciphertext, dst with exact capacity) simultaneously flush against a PROT_NONE page after, then before; every aad length 0..300; every nonce length 1..300; a sparse sweep of long messages 2^k + {0,1,15,16,17,33,47,48,63,64} bytes for k = 12..22 (thorough tier: ..26); every in-package amd64 kernel with every pointer argument guarded on both sides; misuse: Encrypt/Decrypt with src or dst of 0..15 bytes (tail-guarded, interior cap=len, interior cap>=16) on both paths, Open of 0..15-byte ciphertexts for tag sizes 12..16; thorough tier only: Seal and Open of messages with len(ciphertext) = 2^32+21, 2^32+3, 2^32 and of additional data of 2^32+7 bytes, the message ending at a guard page (fresh destination) and starting right after one (in place). " +
+		Rule: "systematic (enumerated completely every run): Seal and Open at every plaintext length 0..1100 with all arguments (nonce, aad, plaintext/ciphertext, dst with exact capacity) simultaneously flush against a PROT_NONE page after, then before; every aad length 0..300; every nonce length 1..300; a sparse sweep of long messages 2^k + {0,1,15,16,17,33,47,48,63,64} bytes for k = 12..22 (thorough tier: ..26); dst prefixes with no room behind them (cap = len, the library moves the prefix) of every length 1..200 and 2^k + {-1,0,1,15,16,17,33,37,63,64} for k = 8..16 (thorough tier: ..24), Seal and Open; every in-package amd64 kernel with every pointer argument guarded on both sides; misuse: Encrypt/Decrypt with src or dst of 0..15 bytes (tail-guarded, interior cap=len, interior cap>=16) on both paths, Open of 0..15-byte ciphertexts for tag sizes 12..16; thorough tier only: Seal and Open of messages with len(ciphertext) = 2^32+21, 2^32+3, 2^32 and of additional data of 2^32+7 bytes, the message ending at a guard page (fresh destination) and starting right after one (in place). " +
 			"seeded: random (op, tag size, nonce size, lengths, per-argument side and alignment, dst prefix). non-trivial = at least one argument was guard-placed; distinct = distinct (path, op, length classes, per-argument sides)",
 		Components: map[string]string{"sm4 Block/AEAD methods": "real", "amd64 assembly kernels (via verif-tagged wrappers)": "real", "portable Go path": "real", "allocator": "stub (guard-page arena: mmap + mprotect)", "arm64 assembly": "not run",
 			"oracle": "hardware page protection + canary bytes; runtime.Error.Addr() attributes the fault to an arena guard page"},
 		Assumptions: []string{"a fault is only detected when the stray access reaches the adjacent guard page (accesses that stay inside the allocation's own pages are caught by canaries if they write, not if they read)",
 			"ordinary panics and wrong results are not judged here", "a block or ciphertext shorter than required must give a panic or an error even when cap(slice) would allow the access"},
 		FaultKinds: []string{"guard:tail", "guard:head", "interior+canary", "misuse:short-block", "misuse:short-ciphertext", "thread:cold"},
-		ProbeNames: []string{"tail-1..15", "empty-plaintext", "kernel", "misuse-refused", "len>=256"},
+		ProbeNames: []string{"tail-1..15", "empty-plaintext", "kernel", "misuse-refused", "len>=256", "dst-prefix-moved"},
 		StepUnit:   "library calls",
 	}
 }
@@ -109,9 +133,16 @@ func (c11) Generate(idx int, r *core.Rand, tier string) core.Script {
 		j /= 4
 		s.PtLen = 1<<uint(12+j/len(c11BigDelta)) + c11BigDelta[j%len(c11BigDelta)]
 		return s
-	} else if tier == "thorough" && idx >= c11SysN()+nb && idx < c11SysN()+nb+len(giantVariants) {
+	} else if np := c11PrefN(tier); idx >= c11SysN()+nb && idx < c11SysN()+nb+np {
+		j := idx - c11SysN() - nb
+		s := &c11Script{Asm: true, Op: []string{"Seal", "Open"}[j%2], AEAD: aeadSpec{Key: "000102030405060708090a0b0c0d0e0f", NonceSize: 12, TagSize: 16}, Seed: uint64(idx),
+			Sides: allSides([]string{"tail", "head"}[(j/2)%2]), AadLen: (idx * 7) % 40, Tight: true}
+		s.DstLen = c11PrefLens(tier)[j/4]
+		s.PtLen = []int{5, 0, 16, 33}[(j/4)%4]
+		return s
+	} else if tier == "thorough" && idx >= c11SysN()+nb+np && idx < c11SysN()+nb+np+len(giantVariants) {
 		// thorough tier only: arguments of 2^32 bytes and more (see giant.go)
-		return &c11Script{Asm: true, Op: "Giant", Giant: giantVariants[idx-c11SysN()-nb], AEAD: aeadSpec{NonceSize: 12, TagSize: 16}}
+		return &c11Script{Asm: true, Op: "Giant", Giant: giantVariants[idx-c11SysN()-nb-np], AEAD: aeadSpec{NonceSize: 12, TagSize: 16}}
 	}
 	sides := []string{"tail", "head"}
 	base := func(op string, side string) *c11Script {
@@ -204,6 +235,12 @@ func (c11) Generate(idx int, r *core.Rand, tier string) core.Script {
 	}
 	s.Align = m.Intn(64)
 	s.DstLen = m.PickInt(0, 0, 1, 7, 16, 33)
+	if pf := r.Split("prefix"); pf.Chance(1, 4) {
+		s.Tight = true
+		if pf.Chance(1, 2) {
+			s.DstLen = pf.PickInt(1, 15, 16, 17, 63, 64, 65, 255, 257, 1000, 2047, 2049, 2085, 4095, 4097, 5000, 8191, 8193, 20000)
+		}
+	}
 	s.Cold = r.Split("thread").Chance(1, 10)
 	return s
 }
@@ -309,7 +346,12 @@ func (c11) Execute(sc core.Script, keep bool) *core.Result {
 			case "Seal":
 				pt := alloc("src", s.PtLen, s.PtLen, 0)
 				copy(pt, ptH)
-				dst := alloc("dst", s.DstLen, s.DstLen+s.PtLen+spec.TagSize, 0)
+				dstCap := s.DstLen + s.PtLen + spec.TagSize
+				if s.Tight {
+					dstCap = s.DstLen
+					res.Probes["dst-prefix-moved"]++
+				}
+				dst := alloc("dst", s.DstLen, dstCap, 0)
 				out := a.Seal(dst, nonce, pt, aad)
 				log.Add("Seal pt=%d aad=%d nonce=%d tag=%d -> %s", s.PtLen, s.AadLen, spec.NonceSize, spec.TagSize, core.Hex8(out))
 			case "Open", "OpenBad":
@@ -319,7 +361,12 @@ func (c11) Execute(sc core.Script, keep bool) *core.Result {
 				}
 				ct := alloc("src", len(ctH), len(ctH), 0)
 				copy(ct, ctH)
-				dst := alloc("dst", s.DstLen, s.DstLen+s.PtLen, 0)
+				dstCap := s.DstLen + s.PtLen
+				if s.Tight {
+					dstCap = s.DstLen
+					res.Probes["dst-prefix-moved"]++
+				}
+				dst := alloc("dst", s.DstLen, dstCap, 0)
 				out, err := a.Open(dst, nonce, ct, aad)
 				log.Add("%s ct=%d aad=%d nonce=%d tag=%d -> err=%v %s", s.Op, len(ctH), s.AadLen, spec.NonceSize, spec.TagSize, err != nil, core.Hex8(out))
 			case "M:Open-short":
@@ -375,7 +422,7 @@ func (c11) Execute(sc core.Script, keep bool) *core.Result {
 		sideList = append(sideList, k+"="+side(k))
 	}
 	sort.Strings(sideList)
-	res.Fingerprint = core.Fp(pathName, s.Op, core.LenClass(s.PtLen), core.LenClass(s.AadLen), fmt.Sprint(s.AEAD.NonceSize == 12, s.AEAD.TagSize, s.ShortLen), strings.Join(sideList, ","))
+	res.Fingerprint = core.Fp(pathName, s.Op, core.LenClass(s.PtLen), core.LenClass(s.AadLen), fmt.Sprint(s.AEAD.NonceSize == 12, s.AEAD.TagSize, s.ShortLen, s.Tight, core.LenClass(s.DstLen)), strings.Join(sideList, ","))
 	res.Nontrivial = guarded > 0
 	lenParam := "pt=" + core.LenClass(s.PtLen)
 	if misuse {
@@ -499,6 +546,19 @@ func (c11) Shrinks(sc core.Script) []core.Script {
 	if s.DstLen > 0 {
 		c := cp()
 		c.DstLen = 0
+		out = append(out, c)
+		if s.DstLen > 64 {
+			c = cp()
+			c.DstLen = s.DstLen / 2
+			out = append(out, c)
+			c = cp()
+			c.DstLen = s.DstLen - 1
+			out = append(out, c)
+		}
+	}
+	if s.Tight {
+		c := cp()
+		c.Tight = false
 		out = append(out, c)
 	}
 	if s.Align > 0 {
